@@ -606,9 +606,13 @@ class Tensor(TensorBase, _protocols.TensorProtocol, Generic[TArrayCompatible]): 
             file: A file-like object with a ``write`` method that accepts bytes, or has an ``fileno()`` method.
         """
         if isinstance(self._raw, np.ndarray) and _supports_fileno(file):
-            # This is a duplication of tobytes() for handling special cases
-            array = _create_np_array_for_byte_representation(self)
-            array.tofile(file)
+            # This is a duplication of tobytes() for handling special cases.
+            # The array's buffer is handed to file.write() without an intermediate bytes
+            # copy. ndarray.tofile() is not used: it writes through a private stdio stream
+            # on the descriptor, and a write the file system refuses (disk full, file size
+            # limit) is lost there without any exception.
+            array = np.ascontiguousarray(_create_np_array_for_byte_representation(self))
+            file.write(array.reshape(-1).view(np.uint8).data)
         else:
             file.write(self.tobytes())
 
